@@ -455,6 +455,9 @@ const (
 var c19FNames = []string{"FWrite1", "FClosed1", "FCtx1", "FWrite2", "FClosed2", "FCtx2"}
 
 type c19Call struct {
+	// + retryretx: RetryClient with ResponseTimeout, request K interrupted once by the peer closing
+	// (P2: at the PUBREL of a QoS 2 publish), then N timed-out retransmissions via SetClient+Connect+Retry
+	P2    bool
 	Kind  string // req connectopt retryconnectopt retryping retrytimeout notconnected validate closedclient connrefused subbadack willbadqos serve
 	K     int
 	F     int
@@ -505,6 +508,8 @@ func (c *c19Call) coq() string {
 		return fmt.Sprintf("(CkServe %d)", c.N)
 	case "keepalive":
 		return fmt.Sprintf("(CkKeepAlive %d)", c.N)
+	case "retryretx":
+		return fmt.Sprintf("(CkRetryRetx %s %s %d)", c19KNames[c.K], cBool(c.P2), c.N)
 	}
 	panic("c19: unknown call kind " + c.Kind)
 }
@@ -765,10 +770,119 @@ func c19StopRetryClient(rc *mqtt.RetryClient, cc *c19Conn) {
 	cc.cli.Close()
 }
 
+// c19RetxTimeout is the ResponseTimeout of the retransmission scenarios. Only its expiry matters,
+// never when it happens: whichever arm ends the FIRST transmission (the peer's close, or under
+// extreme load this timeout) the queued handle is the same kind of error, and every wait for an
+// OnError call is 30 s.
+const c19RetxTimeout = 200 * time.Millisecond
+
+type c19RetxResult struct {
+	err error
+	ok  bool
+}
+
+var (
+	c19RetxMu    sync.Mutex
+	c19RetxCache = map[string]*c19RetxResult{}
+)
+
+// c19Retx: a request on a RetryClient with ResponseTimeout is interrupted once (the peer closes the
+// connection instead of acknowledging), then n times: SetClient(new BaseClient) + Connect + Retry
+// on a connection whose broker swallows the retransmission. Returns the error OnError received for
+// the n-th retransmission. The result is computed once per run and scenario (it costs n x 200 ms)
+// and the same error value is reused wherever the scenario occurs in a chain.
+func c19Retx(c *c19Call) (error, bool) {
+	key := c.coq()
+	c19RetxMu.Lock()
+	if r, ok := c19RetxCache[key]; ok {
+		c19RetxMu.Unlock()
+		return r.err, r.ok
+	}
+	c19RetxMu.Unlock()
+	err, ok := c19RetxRun(c)
+	c19RetxMu.Lock()
+	c19RetxCache[key] = &c19RetxResult{err, ok}
+	c19RetxMu.Unlock()
+	return err, ok
+}
+
+func c19RetxRun(c *c19Call) (error, bool) {
+	bg := context.Background()
+	chErr := make(chan error, 64)
+	next := func() (error, bool) {
+		select {
+		case err := <-chErr:
+			return err, true
+		case <-time.After(30 * time.Second):
+			return errC19Stuck, false
+		}
+	}
+	target := 1
+	if c.P2 {
+		target = 2
+	}
+	cc := c19NewConn(func(cc *c19Conn, n int, p c19Pkt) (bool, error) {
+		if n == target {
+			cc.conn.Close() // the peer goes away instead of acknowledging
+			return true, nil
+		}
+		return false, nil
+	})
+	rc, err := c19RetryClient(cc, c19RetxTimeout, func(err error) {
+		select {
+		case chErr <- err:
+		default:
+		}
+	})
+	if err != nil {
+		return err, false
+	}
+	conns := []*c19Conn{cc}
+	defer func() {
+		ctx, cancel := ctxTimeout(10 * time.Second)
+		_ = rc.Disconnect(ctx)
+		cancel()
+		for _, x := range conns {
+			x.cli.Close()
+		}
+	}()
+	if err := c19Issue(rc, bg, c.K); err != nil {
+		return fmt.Errorf("c19: RetryClient refused the request: %v", err), true
+	}
+	first, ok := next()
+	if !ok {
+		return first, false
+	}
+	if _, isRetry := first.(mqtt.ErrorWithRetry); !isRetry {
+		// nothing was queued: there will be no retransmission to observe
+		return fmt.Errorf("c19: the interrupted first transmission reported an error without retry handle: %w", first), true
+	}
+	last := first
+	for round := 0; round < c.N; round++ {
+		nc := c19NewConn(func(cc *c19Conn, n int, p c19Pkt) (bool, error) { return true, nil }) // never answers
+		conns = append(conns, nc)
+		rc.SetClient(bg, nc.cli)
+		ctx, cancel := ctxTimeout(20 * time.Second)
+		_, err := rc.Connect(ctx, "c19")
+		cancel()
+		if err != nil {
+			return fmt.Errorf("c19: reconnecting: %v", err), false
+		}
+		rc.Retry(bg)
+		last, ok = next()
+		if !ok {
+			return last, false
+		}
+	}
+	return last, true
+}
+
 // c19DoCall performs the real library call and returns its error. ok=false: it did not return.
 func c19DoCall(c *c19Call, cause error) (error, bool) {
 	bg := context.Background()
 	switch c.Kind {
+	case "retryretx":
+		return c19Retx(c)
 	case "req":
 		ctx := newC19Ctx(cause)
 		if c.K == c19KConnect {
@@ -1110,6 +1224,12 @@ func c19CauselessCalls() []*c19Call {
 		out = append(out, &c19Call{Kind: "serve", N: n})
 	}
 	out = append(out, &c19Call{Kind: "keepalive", N: 0})
+	for n := 1; n <= 2; n++ {
+		for _, k := range []int{c19KPub1, c19KPub2, c19KSub, c19KUnsub} {
+			out = append(out, &c19Call{Kind: "retryretx", K: k, N: n})
+		}
+		out = append(out, &c19Call{Kind: "retryretx", K: c19KPub2, P2: true, N: n})
+	}
 	return out
 }
 
@@ -1542,6 +1662,18 @@ func c19IsBareEOF(d *c19Desc) bool { return d != nil && d.Kind == "sent" && d.Se
 func runC19(cfg *runCfg) error {
 	r := rand.New(rand.NewSource(cfg.seed))
 	g := &c19Gen{r: r, causeless: c19CauselessCalls(), withCause: c19CauseCalls()}
+	// the retransmission scenarios wait for real timeouts (n x 200 ms each): run them once, all at the
+	// same time, before anything else; c19Retx then serves the recorded errors
+	{
+		var wg sync.WaitGroup
+		for _, c := range g.causeless {
+			if c.Kind == "retryretx" {
+				wg.Add(1)
+				go func(c *c19Call) { defer wg.Done(); c19Retx(c) }(c)
+			}
+		}
+		wg.Wait()
+	}
 	cf := newCasesFile("C19", "Codec", "Errors", "CheckC19")
 	m := &meta{Property: "C19", Distribution: map[string]interface{}{}, Families: map[string][]interface{}{}}
 	b := &c19Builder{reg: map[int]error{}, calls: map[string]int{}}
